@@ -42,6 +42,9 @@ func (it *Interp) leaf(fr *Frame, x *ssa.Call, fn *ssa.Function, args []Value) V
 	if out == nil {
 		return fail("output is not a pointer")
 	}
+	if out.Obj != nil && out.Obj.Global && !isInit(fr.fn) {
+		it.event("global-store", fr.fn, x.Pos(), "%s.%s writes its result into package-level variable %s outside init", fn.Pkg.Pkg.Name(), name, out.Path())
+	}
 	setMont := func(v *Poly) {
 		if out.Up != nil && out.Up.Rep != nil {
 			it.materialise(out.Up)
